@@ -206,6 +206,15 @@ func (v *Var) Write(mkline *MkLine, conditional bool, conditionVarnames ...strin
 	v.updateConstantValue(mkline)
 }
 
+// undef marks the variable as being undefined at some point.
+// After that, nothing is known about its value, just as if it
+// had been assigned inside a conditional.
+func (v *Var) undef() {
+	v.conditional = true
+	v.constantState = 3
+	v.constantValue.Reset()
+}
+
 func (v *Var) update(mkline *MkLine, update *strings.Builder) {
 	firstWrite := len(v.writeLocations) == 1
 	if v.IsConditional() && !firstWrite {
